@@ -11,11 +11,14 @@ block alone - docsem.doc_sem(program, bid) - never by the library):
   * groups: every sequence of the exhausted IterateSATGen set (and of RandomGen) splits
     into consecutive groups of the inner length, one per outer trial; the outer block's
     crossed factors (and factors derived from them) are constant within each group; the
-    sequence of group representatives is a valid sequence of the outer block; each group
-    restricted to the inner design is a valid sequence of the inner block;
+    sequence of group representatives satisfies the outer block's crossing (the outer block
+    with its constraints other than MinimumTrials removed: the property speaks of the outer
+    crossing only, and neither the library nor the reference semantics of the whole Nest
+    rescale the run lengths of outer AtMostKInARow-like constraints); each group restricted
+    to the inner design is a valid sequence of the inner block (crossing and constraints);
   * converse: every such composition is returned: the exhausted set equals the set of
-    all compositions (|outer valid| x |inner valid|^(outer trials) when no Nest-level
-    constraint couples them);
+    all compositions (|outer valid| x |inner valid|^(outer trials)) when the outer block
+    has no constraints and no Nest-level constraint couples them;
   * associativity: Nest(Nest(a,b),c) and Nest(a,Nest(b,c)) have the same solution sets.
 """
 import collections
@@ -49,7 +52,7 @@ def gen_block(rng, bid, fids, factors, cons, role):
     crossing = list(fids)
     cs = []
     kinds = {"outer": ["AtMostKInARow", "ExactlyK", "Pin", "Sequential"], "inner": ["AtMostKInARow", "ExactlyK", "Pin", "AtLeastKInARow"]}[role]
-    if rng.random() < 0.45:
+    if rng.random() < (0.25 if role == "outer" else 0.5):
         kind = rng.choice(kinds)
         f = factors[rng.choice(fids)]
         lname = f["levels"][0][0]
@@ -170,6 +173,33 @@ def crossed_fids(program, bid):
     return []
 
 
+def subtree(program, bid):
+    b = block_desc(program, bid)
+    out = [bid]
+    for k in ("block", "outer", "inner"):
+        if k in b:
+            out += subtree(program, b[k])
+    for x in b.get("blocks", []):
+        out += subtree(program, x)
+    return out
+
+
+def crossing_only(program, bid):
+    """(program', had_constraints): the blocks below `bid` keep only their MinimumTrials.  The property speaks
+    of the outer block's *crossing* over the sequence of groups (the run-length parameters of outer constraints
+    are not rescaled by Nest, in the library as in the reference semantics of the whole Nest)."""
+    p = copy.deepcopy(program)
+    cons = {c["id"]: c for c in p["constraints"]}
+    ids = set(subtree(p, bid))
+    had = False
+    for b in p["blocks"]:
+        if b["id"] in ids:
+            keep = [c for c in b.get("constraints", []) if cons[c]["kind"] == "MinimumTrials"]
+            had = had or len(keep) != len(b.get("constraints", []))
+            b["constraints"] = keep
+    return p, had
+
+
 def part_oracle(program, bid):
     """DocSem of one argument block alone (None if outside the documented fragment)."""
     try:
@@ -271,7 +301,8 @@ def check_program(program, stats):
     if not own_min and T != To * Ti:
         found.append(("nest:length", "Nest reports %d trials; the outer block has %d and the inner block %d (no preamble trials): "
                       "expected %d" % (T, To, Ti, To * Ti), {"T": T, "outer": To, "inner": Ti}))
-    ods, ids = part_oracle(program, main["outer"]), part_oracle(program, main["inner"])
+    outer_prog, outer_had_constraints = crossing_only(program, main["outer"])
+    ods, ids = part_oracle(outer_prog, main["outer"]), part_oracle(program, main["inner"])
     if ods is None or ids is None:
         stats["unsupported"] += 1
         return found, "unsupported"
@@ -311,8 +342,10 @@ def check_program(program, stats):
     outer_all_crossed = all(f in ocr for f in ir.design_fids(program, main["outer"]) if byid[f]["kind"] == "simple")
     if not outer_all_crossed:
         stats["converse-skipped-uncrossed-outer-factor"] += 1    # such a factor is not held constant: compositions would undercount
+    if outer_had_constraints:
+        stats["converse-skipped-outer-constraints"] += 1         # the property says nothing about them
     if "IterateSATGen" in got and len(got["IterateSATGen"]) < CAP and not main.get("constraints") and T == To * Ti \
-            and outer_all_crossed:
+            and outer_all_crossed and not outer_had_constraints:
         comp, total = compositions(program, ods, ids, To, Ti, 4 * CAP)
         if comp is None:
             stats["compositions-too-many"] += 1
